@@ -212,7 +212,9 @@ func (g *egen) str(d int) string {
 		}
 		return r.pick(`"lit"`, "s0", "c_s0", "mk", "obj.v")
 	}
-	switch r.n(18) {
+	switch r.n(19) {
+	case 18:
+		return fmt.Sprintf("lazy(%s)", g.str(d-1))
 	case 0:
 		return `"lit"`
 	case 1:
@@ -309,7 +311,9 @@ func (g *egen) boolean(d int) string {
 
 func (g *egen) anyExpr(d int) string {
 	r := g.r
-	switch r.n(15) {
+	switch r.n(16) {
+	case 15:
+		return fmt.Sprintf("lazy(%s)", g.anyExpr(d-1))
 	case 14:
 		return fmt.Sprintf("convert(%s, %s)", g.outerList(d-1), r.pick("list(object({ v = string, n = number }))", "list(any)", "set(object({ v = string }))", "map(string)"))
 	case 0, 1, 2, 3:
